@@ -24,6 +24,10 @@ var (
 	// Use errors.Is to check if returned error is ErrInvalidType.
 	ErrInvalidType = errors.New("invalid type")
 
+	// ErrUnexpectedData is wrapped and returned by DefaultParser if JSON input contains any data after the first JSON value.
+	// Use errors.Is to check if returned error is ErrUnexpectedData.
+	ErrUnexpectedData = errors.New("unexpected data after JSON value")
+
 	// ErrUnitDisabled is wrapped and returned by DefaultParser if RuleDisableUnit is present and input contains unit.
 	// Use errors.Is to check if returned error is ErrUnitDisabled.
 	ErrUnitDisabled = errors.New("unit disabled")
